@@ -182,9 +182,13 @@ class DataPath:
 
         obj = cls.from_part_specs(*spec_val)
 
+        MODIFIERS = ("dtype", "length", "map_keys", "map_values")
+        MODIFIERS += ("first", "last", "single", "all", "any")
         for i in spec_key_split[1:]:
             i = DATUM_TYPE_MULTI_TYPE_LOOKUP.get(i, i)
             try:
+                if i not in MODIFIERS:
+                    raise AttributeError(i)  # not a modifier (although maybe an attribute)
                 obj = getattr(obj, i)()
             except AttributeError:
                 raise MalformedDataPathSpec(
